@@ -273,8 +273,8 @@ macro "float_ties" c:ident k:num fmt:str : command => do
       cases (bitsCodec $k).unpack (d.drop off) with
       | none => rfl
       | some p => rfl)
-  let c7 ← `(/-- **C19 for the translated class**: every bit pattern of the class's width, any bytes before and after -/
-      theorem $(n "_code_lawful") (w : Nat) (hw : w < 256 ^ $k) (pre rest : List UInt8) :
+  -- **C19 for the translated class**: every bit pattern of the class's width, any bytes before and after
+  let c7 ← `(theorem $(n "_code_lawful") (w : Nat) (hw : w < 256 ^ $k) (pre rest : List UInt8) :
         ∃ o bs, $(g "_new") (PyT.floatBits $k w) = .ok o ∧ $(g "_to_bytes") o = .ok (.bytes bs, o) ∧
           ∃ o', $(g "_from_bytes") (.bytes (pre ++ bs ++ rest)) (.int pre.length) = .ok o' ∧
             $(g "_value") o' = .ok (PyT.floatBits $k w, o') ∧
